@@ -1,4 +1,6 @@
 import Verif.Spec.Scope
+import Verif.Gen.JsKeywords
+import Verif.Gen.RenameSites
 /-!
 # C02 — the identifier renamer (`js/vars.go`: `newRenamer`, `getName`, `isReserved`, `renameScope`)
 
@@ -33,12 +35,15 @@ structure Cfg where
   keywords : List Name
   deriving Repr
 
-/-- `useCharFreq = true` (the public API always uses this one) -/
-def freqStart : List Char := "etnsoiarclduhmfpgvbjy_wOxCEkASMFTzDNLRPHIBV$WUKqYGXQZJ".toList
-def freqCont : List Char := "etnsoiarcldu14023hm8f6pg57v9bjy_wOxCEkASMFTzDNLRPHIBV$WUKqYGXQZJ".toList
-/-- `useCharFreq = false` (only reachable from the package's own tests: `useAlphabetVarNames`) -/
-def alphaStart : List Char := "abcdefghijklmnopqrstuvwxyzABCDEFGHIJKLMNOPQRSTUVWXYZ_$".toList
-def alphaCont : List Char := "abcdefghijklmnopqrstuvwxyzABCDEFGHIJKLMNOPQRSTUVWXYZ_$0123456789".toList
+/-- `useCharFreq = true` (what the public API always uses); alphabets and keywords are regenerated from the
+    sources on every run (`Verif.Gen.RenameSites`, `Verif.Gen.JsKeywords`) -/
+def freqCfg : Cfg :=
+  { start := Verif.Gen.RenameSites.freqStart, cont := Verif.Gen.RenameSites.freqCont,
+    keywords := Verif.Gen.JsKeywords.keywords }
+/-- `useCharFreq = false` (`useAlphabetVarNames`, only settable from inside package `js`) -/
+def alphaCfg : Cfg :=
+  { start := Verif.Gen.RenameSites.alphaStart, cont := Verif.Gen.RenameSites.alphaCont,
+    keywords := Verif.Gen.JsKeywords.keywords }
 
 /-! ## getName -/
 
@@ -154,10 +159,18 @@ def Tree.withFlags (keep : Bool) (t : Tree) : Tree :=
 def printProp (keyIsIdent : Bool) (key value : Name) : List Char :=
   if keyIsIdent && key == value then value else key ++ ':' :: value
 
+/-- split at the first colon -/
+def splitColon : List Char → List Char × Option (List Char)
+  | [] => ([], none)
+  | ch :: r =>
+    if ch == ':' then ([], some r)
+    else match splitColon r with
+      | (k, v) => (ch :: k, v)
+
 /-- reader used to state the property: splits `key:value`, a text without colon is a shorthand -/
 def readProp (s : List Char) : Name × Name :=
-  match s.span (· != ':') with
-  | (k, _ :: v) => (k, v)
-  | (k, []) => (k, k)
+  match splitColon s with
+  | (k, some v) => (k, v)
+  | (k, none) => (k, k)
 
 end Verif.Model.Rename
